@@ -972,7 +972,15 @@ func withHelpers(c *Ctx, fn *ssa.Function) []*ssa.Function {
 					continue
 				}
 				callee := call.Common().StaticCallee()
-				if callee == nil || seen[callee] || callee.Pkg != fn.Pkg || callee.Object() == nil || callee.Object().Exported() || callee.Blocks == nil {
+				if callee == nil || seen[callee] || callee.Pkg != fn.Pkg || callee.Blocks == nil {
+					continue
+				}
+				// unexported helpers, and function literals of the functions already in the set
+				if callee.Object() == nil {
+					if callee.Parent() == nil || !seen[callee.Parent()] {
+						continue
+					}
+				} else if callee.Object().Exported() {
 					continue
 				}
 				seen[callee] = true
